@@ -19,7 +19,7 @@ package fingerprint
 //@   ensures name == i.HeaderName
 
 //@ func (*FingerprintHeaderInjector).GetHeaderValue :: i, req -> fp, err
-//@   props C06,C01
+//@   props C06,C01,C05
 //@   requires i != nil && req != nil
 //@   assigns nothing
 //@   ensures [C06:no-metadata-no-value] !hasMeta(req.reqCtx) ==> err != nil && fp == ""
